@@ -280,3 +280,17 @@ func vNewReplicaSecretStore(t testing.TB) secretstore.SecretStore {
 	}
 	return ss
 }
+
+// vWaitQuiet waits until the observed quantity (log lengths...) stopped changing for `quiet`, at most `limit`.
+// A freshly started protocol service writes its own announcements into the account group: checks that count appended
+// entries must start only after that is over.
+func vWaitQuiet(observe func() int, quiet, limit time.Duration) {
+	last, since := -1, time.Now()
+	for deadline := time.Now().Add(limit); time.Now().Before(deadline); time.Sleep(20 * time.Millisecond) {
+		if v := observe(); v != last {
+			last, since = v, time.Now()
+		} else if time.Since(since) > quiet {
+			return
+		}
+	}
+}
